@@ -52,6 +52,9 @@ func stressOps() []stressOp {
 		{Kind: "rowid", Table: "r", Rowid: 7, Cols: []string{"a", "b"}},
 		{Kind: "pk", Table: "alt", Key: sqlittle.Key{int64(4)}, Cols: []string{"q"}},
 		{Kind: "indexedeq", Table: "r", Index: "ra", Key: sqlittle.Key{int64(1)}, Cols: []string{"id"}},
+		// the first comparisons under NOCASE / RTRIM (whatever those build lazily)
+		{Kind: "indexedeq", Table: "r", Index: "rb", Key: sqlittle.Key{"HELLO"}, Cols: []string{"id", "b"}},
+		{Kind: "pk", Table: "z5", Key: sqlittle.Key{"A1"}, Cols: []string{"q"}},
 		{Kind: "columns", Table: "r"},
 	}
 }
@@ -188,7 +191,7 @@ func cmdStress(args []string) int {
 	start := make(chan struct{})
 	var firstOps []int
 	for i, op := range ops {
-		if op.Table == "w" && (op.Kind == "indexed" || op.Kind == "select") {
+		if (op.Table == "w" && (op.Kind == "indexed" || op.Kind == "select")) || (op.Kind == "indexedeq" && op.Index == "rb") {
 			firstOps = append(firstOps, i)
 		}
 	}
